@@ -253,35 +253,49 @@ def coq_make(targets, timeout=1500):
 
 
 def coq_check_props(prop, extra_deps=()):
-    """Compile coq/<prop>/Properties_<prop>.v from scratch (after making its dependencies) and
-    report obligations / discharged / axioms. Returns a dict."""
-    rel = "%s/Properties_%s" % (prop, prop)
-    src = os.path.join(COQ, rel + ".v")
-    txt = strip_coq_comments(open(src).read())
-    thms = re.findall(r"^\s*(?:Theorem|Corollary)\s+([A-Za-z0-9_']+)", txt, re.M)
-    res = {"file": "coq/" + rel + ".v", "theorems": thms, "obligations": len(thms), "discharged": 0,
-           "assumptions": {}, "ok": False, "log": "", "failed_theorem": None}
+    """Compile coq/<prop>/Properties_<prop>.v (and every further coq/<prop>/Properties_<prop>_*.v, which hold the property
+    theorems of one sub-development each) from scratch after making their dependencies and report obligations / discharged /
+    axioms. Returns a dict."""
+    import glob as _glob
+    rels = ["%s/Properties_%s" % (prop, prop)] + sorted(
+        os.path.relpath(f, COQ)[:-2] for f in _glob.glob(os.path.join(COQ, prop, "Properties_%s_*.v" % prop)))
+    res = {"file": ", ".join("coq/" + r + ".v" for r in rels), "theorems": [], "obligations": 0, "discharged": 0,
+           "assumptions": {}, "ok": False, "log": "", "failed_theorem": None, "coqc_s": 0.0}
+    per = []
+    for rel in rels:
+        txt = strip_coq_comments(open(os.path.join(COQ, rel + ".v")).read())
+        thms = re.findall(r"^\s*(?:Theorem|Corollary)\s+([A-Za-z0-9_']+)", txt, re.M)
+        per.append((rel, thms))
+        res["theorems"] += thms
+    res["obligations"] = len(res["theorems"])
     bad = coq_forbidden_scan()
     if bad:
         res["log"] = "forbidden vernacular in development: " + "; ".join(bad[:10])
         return res
     # dependencies
-    rc, out = coq_make([rel + ".vo"] + list(extra_deps))
-    # always re-run coqc on the Properties file itself to capture Print Assumptions
-    t0 = time.time()
-    rc2, o, e = sh(["coqc", "-Q", ".", "Cb", rel + ".v"], cwd=COQ, timeout=900)
-    res["coqc_s"] = round(time.time() - t0, 2)
-    res["log"] = (out[-2000:] if rc != 0 else "") + o[-6000:] + e[-3000:]
-    if rc2 == 0 and rc == 0:
-        res["ok"] = True
-        res["discharged"] = len(thms)
-        # parse Print Assumptions blocks in order
-        blocks = re.split(r"(?=Closed under the global context|Axioms:)", o)
-        ass = [b.strip() for b in blocks if b.startswith("Closed under") or b.startswith("Axioms:")]
-        for i, t in enumerate(thms):
-            res["assumptions"][t] = ass[i].split("\n")[0] if i < len(ass) and ass[i].startswith("Closed") else (
-                ass[i] if i < len(ass) else "not printed")
-    else:
+    rc, out = coq_make([rel + ".vo" for rel, _ in per] + list(extra_deps))
+    ok_all = (rc == 0)
+    if rc != 0:
+        res["log"] += out[-2000:]
+    for rel, thms in per:
+        src = os.path.join(COQ, rel + ".v")
+        # always re-run coqc on the Properties file itself to capture Print Assumptions
+        t0 = time.time()
+        rc2, o, e = sh(["coqc", "-Q", ".", "Cb", rel + ".v"], cwd=COQ, timeout=900)
+        res["coqc_s"] = round(res["coqc_s"] + time.time() - t0, 2)
+        res["log"] += o[-6000:] + e[-3000:]
+        if rc2 == 0 and rc == 0:
+            res["discharged"] += len(thms)
+            # parse Print Assumptions blocks in order
+            blocks = re.split(r"(?=Closed under the global context|Axioms:)", o)
+            ass = [b.strip() for b in blocks if b.startswith("Closed under") or b.startswith("Axioms:")]
+            for i, t in enumerate(thms):
+                res["assumptions"][t] = ass[i].split("\n")[0] if i < len(ass) and ass[i].startswith("Closed") else (
+                    ass[i] if i < len(ass) else "not printed")
+            continue
+        ok_all = False
+        if res["failed_theorem"] is not None:
+            continue
         mdep = re.search(r'File "\./([^"]+)", line (\d+)', out) if rc != 0 else None
         m = None if mdep else re.search(r'line (\d+)', e)
         if mdep:
@@ -296,17 +310,21 @@ def coq_check_props(prop, extra_deps=()):
                     name = mm.group(1)
             res["failed_theorem"] = name
             if name in thms:
-                res["discharged"] = thms.index(name)
+                res["discharged"] += thms.index(name)
         else:
             # a dependency failed: find which file
             m = re.search(r'File "\./([^"]+)", line (\d+)', out)
             res["failed_theorem"] = ("dependency " + m.group(1)) if m else "dependency"
+    res["ok"] = ok_all
     return res
 
 
 def coqchk(prop, timeout=2400):
     """Independent re-check of the property's compiled closure with coqchk; returns (ok, axioms-text)."""
-    rc, o, e = sh(["coqchk", "-o", "-silent", "-Q", ".", "Cb", "Cb.%s.Properties_%s" % (prop, prop)], cwd=COQ, timeout=timeout)
+    import glob as _glob
+    mods = ["Cb.%s.Properties_%s" % (prop, prop)] + sorted(
+        "Cb.%s.%s" % (prop, os.path.basename(f)[:-2]) for f in _glob.glob(os.path.join(COQ, prop, "Properties_%s_*.v" % prop)))
+    rc, o, e = sh(["coqchk", "-o", "-silent", "-Q", ".", "Cb"] + mods, cwd=COQ, timeout=timeout)
     txt = (o + e)
     m = re.search(r"CONTEXT SUMMARY(.*)", txt, re.S)
     return rc == 0, (m.group(1).strip() if m else txt[-1500:])
